@@ -6,6 +6,7 @@
 package world
 
 import (
+	"sync"
 	"context"
 	"crypto/ecdh"
 	"crypto/ed25519"
@@ -71,6 +72,60 @@ func (s *SafeAead) Decrypt(ctx context.Context, in *wrapping.BlobInfo, opt ...wr
 		return nil, fmt.Errorf("safeaead: ciphertext too short")
 	}
 	return s.Wrapper.Decrypt(ctx, in, opt...)
+}
+
+// RotWrapper is a wrapper whose encrypting key gets ROTATED before its first decryption: KeyId() then names the new
+// key while values sealed under the earlier key still open (what a pooled / KMS-backed wrapper does after a key rotation).
+type RotWrapper struct {
+	mu      sync.Mutex
+	keys    []*SafeAead
+	rotated bool
+	rng     *mrand.Rand
+}
+
+func NewRotWrapper(name string, rng *mrand.Rand) *RotWrapper {
+	return &RotWrapper{keys: []*SafeAead{NewSafeAead(name+"-1", rng)}, rng: rng}
+}
+func (r *RotWrapper) cur() *SafeAead { return r.keys[len(r.keys)-1] }
+func (r *RotWrapper) Type(ctx context.Context) (wrapping.WrapperType, error) { return r.cur().Type(ctx) }
+func (r *RotWrapper) KeyId(ctx context.Context) (string, error) {
+	r.mu.Lock()
+	defer r.mu.Unlock()
+	return r.cur().KeyId(ctx)
+}
+func (r *RotWrapper) SetConfig(context.Context, ...wrapping.Option) (*wrapping.WrapperConfig, error) {
+	return &wrapping.WrapperConfig{}, nil
+}
+func (r *RotWrapper) Encrypt(ctx context.Context, pt []byte, opt ...wrapping.Option) (*wrapping.BlobInfo, error) {
+	r.mu.Lock()
+	c := r.cur()
+	r.mu.Unlock()
+	return c.Encrypt(ctx, pt, opt...)
+}
+func (r *RotWrapper) Decrypt(ctx context.Context, in *wrapping.BlobInfo, opt ...wrapping.Option) ([]byte, error) {
+	r.mu.Lock()
+	if !r.rotated {
+		r.rotated = true
+		r.keys = append(r.keys, NewSafeAead(fmt.Sprintf("rot-%d", len(r.keys)+1), r.rng))
+	}
+	keys := append([]*SafeAead{}, r.keys...)
+	r.mu.Unlock()
+	var last error
+	for _, k := range keys {
+		id, _ := k.KeyId(ctx)
+		if in != nil && in.KeyInfo != nil && in.KeyInfo.KeyId != "" && in.KeyInfo.KeyId != id {
+			continue
+		}
+		pt, err := k.Decrypt(ctx, in, opt...)
+		if err == nil {
+			return pt, nil
+		}
+		last = err
+	}
+	if last == nil {
+		last = fmt.Errorf("rotwrapper: no key for this value")
+	}
+	return nil, last
 }
 
 func NewSafeAead(name string, rng *mrand.Rand) *SafeAead {
